@@ -586,7 +586,7 @@ GROUPS = [
     Group('make_unmake', 'h_make_unmake', replace=_MUT + _NN + ('BitBoard_firstSquare',), min_props=30, timeout=10800, tier='thorough'),
     Group('make_unmake_split', 'h_make_unmake', replace=_MUT + _NN + ('BitBoard_firstSquare',), min_props=30, timeout=7200,   # quick tier: 6 cases of 7-8 min in parallel
           cases=('case', [('CASE_MU=%d' % k,) for k in range(6)])),
-    Group('fold_lemma', 'h_fold_lemma', cases=('KK', list(range(64))), min_props=4, timeout=900, unwind=65),
+    Group('fold_lemma', 'h_fold_lemma', cases=('KK', list(range(64))), min_props=4, timeout=3600, unwind=65),
     Group('serialize', 'h_serialize', enforce='Position_serialize', min_props=5),
     Group('historyHash', 'h_historyHash', enforce='Position_historyHash', replace=('BitBoard_bitCount',), min_props=3),
     Group('bookHash', 'h_bookHash', enforce='Position_bookHash', min_props=3),
